@@ -87,8 +87,19 @@ func handleDigestAuthFunc(username, password string) ResponseMiddleware {
 			resp.ToBytes()
 			resp.Body = io.NopCloser(bytes.NewReader(resp.body))
 		}
-		return parseResponseBody(client, resp)
+		if err = parseResponseBody(client, resp); err != nil {
+			return err
+		}
+		// ... and save it if the caller asked for that (handleDownload skipped the challenge)
+		return saveResponse(client, resp)
 	}
+}
+
+// isDigestChallenge reports whether resp is a 401 carrying a Digest challenge, i.e. the
+// response the digest middleware replaces by the answer to the authorized request.
+func isDigestChallenge(resp *http.Response) bool {
+	return resp.StatusCode == http.StatusUnauthorized &&
+		strings.HasPrefix(strings.Trim(resp.Header.Get(header.WwwAuthenticate), " \n\r\t"), "Digest ")
 }
 
 func createDigestAuth(resp *http.Response, username, password string) (auth string, err error) {
